@@ -83,6 +83,9 @@ EXT_SIGNATURES = {
 with open(os.path.join(os.path.dirname(os.path.abspath(__file__)), "pinned_assigns.json")) as _f:
     PINNED_ASSIGNS = {k: frozenset(v) for k, v in json.load(_f).items()}
 
+# external functions documented to return a tuple of fixed length (trusted)
+EXT_RETURNS_TUPLE = {"scipy.optimize.linear_sum_assignment": 2}
+
 CMP_FLIP = {"gt": "lt", "ge": "le"}
 CMP_NEG = {"lt": "ge", "le": "gt", "eq": "ne", "ne": "eq", "in": "notin", "notin": "in", "is": "isnot", "isnot": "is",
            "gt": "le", "ge": "lt"}
@@ -1101,6 +1104,8 @@ class Evaluator:
     def e_Subscript(self, n, live):
         base = self.ev(n.value, live)
         idx = self.ev(n.slice, live)
+        if idx[0] == "elem" and idx[1] in self.loops:
+            idx = self._zip_elem(idx, self.loops[idx[1]].iter)
         if base[0] == "global" and base[2] == "assign" and isinstance(n.ctx, ast.Load):
             v = self._table_lookup(base, idx, ("error", "KeyError"))
             if v is not None:
@@ -1243,8 +1248,35 @@ class Evaluator:
             self._yield_from = False
         if t[0] == "inlined_gen":
             return NONE  # the helper generator's yields were re-emitted in place
-        ev = self.emit("yield", live, ("yieldfrom", t), n)
-        return ("yieldval", ev.idx)
+        self._yield_from_term(t, live, n)
+        return NONE
+
+    def _yield_from_term(self, t, live, n):
+        """`yield from t` as explicit yields where t's structure is known: chain(a, b) -> a then b; a generator
+        expression / zip(xs, repeat(c)) -> a loop yielding its elements; anything else stays one `yield from` event."""
+        if t[0] == "call" and t[1] == ("ext", "itertools.chain") and not t[3] and not any(a[0] == "star" for a in t[2]):
+            for a in t[2]:
+                self._yield_from_term(a, live, n)
+            return
+        if t[0] == "comp" and t[1] in ("gen", "list") and len(t[3]) == 1 and t[3][0][0] in self.loops:
+            lid, it, conds = t[3][0]
+            self.loops[lid].kind = "for"
+            self.loop_stack.append(lid)
+            self.emit("yield", AND(live, ("inloop", lid), *conds), t[2], n)
+            self.loop_stack.pop()
+            return
+        if t[0] == "call" and t[1] == ("builtin", "zip") and not t[3] and len(t[2]) >= 2 and not any(a[0] == "star" for a in t[2]):
+            rep = [a[2][0] if (a[0] == "call" and a[1] == ("ext", "itertools.repeat") and len(a[2]) == 1 and not a[3]) else None for a in t[2]]
+            real = [i for i, r in enumerate(rep) if r is None]
+            if len(real) == 1:
+                # zip(xs, repeat(c)): one element per x
+                lid = self.fresh("L")
+                self.loops[lid] = LoopInfo(lid, "for", t[2][real[0]], n, self.loop_stack[-1] if self.loop_stack else None, "_")
+                self.loop_stack.append(lid)
+                self.emit("yield", AND(live, ("inloop", lid)), ("tuple", tuple(("elem", lid) if i == real[0] else rep[i] for i in range(len(rep)))), n)
+                self.loop_stack.pop()
+                return
+        self.emit("yield", live, ("yieldfrom", t), n)
 
     def e_Call(self, n, live):
         f = self.ev(n.func, live)
@@ -1380,6 +1412,12 @@ class Evaluator:
                 return ("call", ("ext", fn.qual[4:]), tuple(("const", a.value) for a in node.args), ())
         return f
 
+    def _zip_elem(self, el, it):
+        """the element of a loop over zip(a, b, ...) as the tuple of its components (so that `m[pair]` is `m[i, j]`)"""
+        if it[0] == "call" and it[1] == ("builtin", "zip") and len(it[2]) >= 2 and not it[3] and not any(a[0] == "star" for a in it[2]):
+            return ("tuple", tuple(("sub", el, ("const", i)) for i in range(len(it[2]))))
+        return el
+
     @staticmethod
     def _ite_leaves(t):
         if t[0] == "ite":
@@ -1423,6 +1461,29 @@ class Evaluator:
                 items = [(("const", k), v) for k, v in named] + [(("dstar",), v) for _, v in spreads]
                 if items:
                     return fold_sub(("dict", tuple(items)))
+        # any(c(x) for x in (a, b)) is c(a) or c(b); all(...) likewise
+        if f in (("builtin", "any"), ("builtin", "all")) and f[1] not in self.env and plain and len(args) == 1 and args[0][0] == "comp" \
+                and len(args[0][3]) == 1 and not args[0][3][0][2] and args[0][3][0][1][0] in ("tuple", "list") \
+                and 0 < len(args[0][3][0][1][1]) <= 8 and not any(x[0] == "star" for x in args[0][3][0][1][1]):
+            lid0 = args[0][3][0][0]
+            parts = [subst(args[0][2], {("elem", lid0): item}) for item in args[0][3][0][1][1]]
+            return OR(*parts) if f[1] == "any" else AND(*parts)
+        # itertools.filterfalse(p, xs) is (x for x in xs if not p(x))
+        if f == ("ext", "itertools.filterfalse") and plain and len(args) == 2:
+            lid = self.fresh("L")
+            el = ("elem", lid)
+            self.loops[lid] = LoopInfo(lid, "comp", args[1], n, self.loop_stack[-1] if self.loop_stack else None, "_")
+            cond = NOT(el) if args[0] == NONE else NOT(self._apply_in_loop(args[0], self._zip_elem(el, args[1]), lid, live, n))
+            self.loops[lid].conds = (cond,)
+            return ("comp", "gen", el, ((lid, args[1], (cond,)),))
+        # zip(*pair) with a call known to return a pair is zip(pair[0], pair[1])
+        if f == ("builtin", "zip") and "zip" not in self.env and not named and not spreads and len(args) == 1 and args[0][0] == "star" \
+                and args[0][1][0] == "call" and args[0][1][1][0] == "ext" and args[0][1][1][1] in EXT_RETURNS_TUPLE:
+            k = EXT_RETURNS_TUPLE[args[0][1][1][1]]
+            t_ = ("call", f, tuple(("sub", args[0][1], ("const", i)) for i in range(k)), ())
+            ev_ = self.emit("call", live, t_, n)
+            ev_.kw_order = []  # type: ignore[attr-defined]
+            return t_
         # map(f, xs) / filter(p, xs) are generator expressions
         if f == ("builtin", "map") and "map" not in self.env and plain and len(args) == 2:
             lid = self.fresh("L")
@@ -1433,7 +1494,7 @@ class Evaluator:
             lid = self.fresh("L")
             el = ("elem", lid)
             self.loops[lid] = LoopInfo(lid, "comp", args[1], n, self.loop_stack[-1] if self.loop_stack else None, "_")
-            cond = el if args[0] == NONE else self._apply_in_loop(args[0], el, lid, live, n)
+            cond = el if args[0] == NONE else self._apply_in_loop(args[0], self._zip_elem(el, args[1]), lid, live, n)
             self.loops[lid].conds = (cond,)
             return ("comp", "gen", el, ((lid, args[1], (cond,)),))
         # functools.partial(g, a, k=v)(b) is g(a, b, k=v)
